@@ -242,3 +242,48 @@ Section Conn4.
     specialize (G pss). lia.
   Qed.
 End Conn4.
+
+(* ---------- a connection mixing all five protocols ---------- *)
+From CRNG Require Import Proofs.PickleIn0.
+Section ConnAll.
+  Variable pf : bytes -> option N.
+  Variable frepr : N -> bytes.
+  Hypothesis pf_repr : forall b, pf (frepr b) = Some b.
+  Hypothesis repr_line : forall b, ~ In 10 (frepr b) /\ ~ In 13 (frepr b).
+  Variable fmt6 fmt0 : N -> bytes.
+
+  Definition frame_okr (pd : N * list pydp) : Prop :=
+    if fst pd =? 0 then frame_ok0 frepr (snd pd) else frame_ok4 pd.
+
+  Lemma handle_framer f pd rest :
+    frame_okr pd ->
+    handle_stream pf fmt6 fmt0 (S f) (frame_of (payload_r frepr pd) ++ rest)
+    = let (evs, fn) := handle_stream pf fmt6 fmt0 f rest in
+      (map (fun d => EvLine (line_of fmt6 fmt0 d)) (snd pd) ++ evs, fn).
+  Proof.
+    unfold frame_okr, payload_r. destruct (fst pd =? 0); intros H.
+    - apply (handle_frame0 pf frepr pf_repr repr_line fmt6 fmt0 f (snd pd) rest H).
+    - apply (handle_frame4 pf fmt6 fmt0 f pd rest H).
+  Qed.
+
+  Theorem handle_conn_frames_all (pss : list (N * list pydp)) :
+    Forall frame_okr pss ->
+    handle_conn pf fmt6 fmt0 (concat (map (fun pd => frame_of (payload_r frepr pd)) pss))
+    = (concat (map (fun pd => map (fun d => EvLine (line_of fmt6 fmt0 d)) (snd pd)) pss), FinOk).
+  Proof.
+    intros Hall. unfold handle_conn.
+    assert (G : forall l : list (N * list pydp),
+               (length l <= length (concat (map (fun pd => frame_of (payload_r frepr pd)) l)))%nat).
+    { induction l as [|x l IHl]; cbn [map concat length]; [lia|].
+      rewrite app_length. unfold frame_of at 1. rewrite app_length. unfold be_bytes. rewrite rev_length, length_le_bytes. lia. }
+    assert (K : forall (l : list (N * list pydp)) f, Forall frame_okr l -> (length l < f)%nat ->
+               handle_stream pf fmt6 fmt0 f (concat (map (fun pd => frame_of (payload_r frepr pd)) l))
+               = (concat (map (fun pd => map (fun d => EvLine (line_of fmt6 fmt0 d)) (snd pd)) l), FinOk)).
+    { induction l as [|pd l IH]; intros f Hl Hf.
+      - destruct f; [lia|]. reflexivity.
+      - destruct f as [|f]; [cbn in Hf; lia|].
+        inversion Hl as [|? ? H1 H2]; subst. cbn [map concat].
+        rewrite (handle_framer f pd _ H1). rewrite (IH f H2 ltac:(cbn [length] in Hf; lia)). reflexivity. }
+    apply K; [exact Hall|]. specialize (G pss). lia.
+  Qed.
+End ConnAll.
